@@ -67,6 +67,27 @@ type ghostSpec struct {
 	// ResultIdx ≥ 0: while the ghost bit is set, result #ResultIdx of the root must equal BadResult.
 	ResultIdx int
 	BadResult tri
+	// Capture: the instruction's value remembers the ghost bit (a checkpoint); Restore: the instruction sets the ghost
+	// bit back to what the given captured value remembers (a rollback to that checkpoint). Optional.
+	Capture func(in ssa.Instruction) bool
+	Restore func(in ssa.Instruction) (captured ssa.Value, ok bool)
+	// MaxDepth: how deep module callees are interpreted (default 3).
+	MaxDepth int
+}
+
+func (sp *ghostSpec) maxDepth() int {
+	if sp.MaxDepth > 0 {
+		return sp.MaxDepth
+	}
+	return 3
+}
+
+// isTracked: booleans, and error values by nil-ness (true = non-nil).
+func isTracked(t types.Type) bool {
+	if isBoolType(t) {
+		return true
+	}
+	return types.Identical(t, types.Universe.Lookup("error").Type())
 }
 
 type ghostFinding struct {
@@ -86,6 +107,8 @@ type ghostRun struct {
 	spec   *ghostSpec
 	memo   map[string][]ghostOutcome
 	active map[string]bool
+	done   map[string]bool
+	grew   bool
 	hasEv  map[*ssa.Function]bool
 	Events int
 	States int
@@ -338,7 +361,12 @@ func (r *ghostRun) containsEvent(fn *ssa.Function, depth int) bool {
 			if r.spec.Reset != nil && r.spec.Reset(in) {
 				found = true
 			}
-			if depth < 3 {
+			if r.spec.Restore != nil {
+				if _, ok := r.spec.Restore(in); ok {
+					found = true
+				}
+			}
+			if depth < r.spec.maxDepth() {
 				if c, ok := in.(ssa.CallInstruction); ok {
 					if cal := calleeOf(c); cal != nil && strings.HasPrefix(funcPkgPath(cal), modPath) && r.containsEvent(cal, depth+1) {
 						found = true
@@ -393,7 +421,18 @@ func (p *Prog) ghostVerdict(fn *ssa.Function, spec *ghostSpec) *ghostRun {
 		r.Undec = "no body"
 		return r
 	}
-	r.run(fn, false, spec.ResultIdx, true, 0)
+	// summaries of (mutually) recursive callees are a least fixpoint: repeat until no outcome set grows
+	for round := 0; round < 12; round++ {
+		r.grew = false
+		r.done = map[string]bool{}
+		r.Finds = nil
+		r.Events = 0
+		r.run(fn, false, spec.ResultIdx, true, 0)
+		if !r.grew || r.Undec != "" {
+			return r
+		}
+	}
+	r.Undec = "callee summaries did not stabilise"
 	return r
 }
 
@@ -402,11 +441,11 @@ func (p *Prog) ghostVerdict(fn *ssa.Function, spec *ghostSpec) *ghostRun {
 func (r *ghostRun) run(fn *ssa.Function, ghostIn bool, resIdx int, root bool, depth int) []ghostOutcome {
 	mk := fmt.Sprintf("%s|%v|%d", funcKey(fn), ghostIn, resIdx)
 	if !root {
-		if o, ok := r.memo[mk]; ok {
-			return o
+		if r.done[mk] || r.active[mk] {
+			return r.memo[mk] // recursion: the current approximation (grows over the rounds)
 		}
-		if r.active[mk] || depth > 3 {
-			// recursion / depth: unknown effect — any ghost, any result
+		if depth > r.spec.maxDepth() {
+			// depth bound: unknown effect — any ghost, any result
 			return []ghostOutcome{{ghostIn, triTop}, {true, triTop}}
 		}
 		r.active[mk] = true
@@ -442,7 +481,28 @@ func (r *ghostRun) run(fn *ssa.Function, ghostIn bool, resIdx int, root bool, de
 		return res[i].Res < res[j].Res
 	})
 	if !root {
+		old := map[ghostOutcome]bool{}
+		for _, o := range r.memo[mk] {
+			old[o] = true
+		}
+		for _, o := range res {
+			if !old[o] {
+				r.grew = true
+				old[o] = true
+			}
+		}
+		res = res[:0]
+		for o := range old {
+			res = append(res, o)
+		}
+		sort.Slice(res, func(i, j int) bool {
+			if res[i].Ghost != res[j].Ghost {
+				return !res[i].Ghost
+			}
+			return res[i].Res < res[j].Res
+		})
 		r.memo[mk] = res
+		r.done[mk] = true
 	}
 	return res
 }
@@ -452,6 +512,9 @@ func (s *ghostState) eval(v ssa.Value) tri {
 	case *ssa.Const:
 		if x.Value != nil && x.Value.Kind() == constant.Bool {
 			return triOf(constant.BoolVal(x.Value))
+		}
+		if x.Value == nil && isTracked(x.Type()) {
+			return triF // nil error
 		}
 		return triTop
 	}
@@ -471,6 +534,21 @@ func (r *ghostRun) execBlock(fn *ssa.Function, s *ghostState, from int, resIdx i
 		if r.spec.Forbidden != nil && s.ghost && r.spec.Forbidden(in) {
 			r.Finds = append(r.Finds, ghostFinding{Kind: "forbidden", Pos: instrPos(in), Path: r.pathOf(s)})
 		}
+		if r.spec.Capture != nil && r.spec.Capture(in) {
+			if v, ok := in.(ssa.Value); ok {
+				s.env[v] = triOf(s.ghost)
+			}
+		}
+		if r.spec.Restore != nil {
+			if cv, ok := r.spec.Restore(in); ok {
+				switch s.eval(cv) {
+				case triT:
+					s.ghost = true
+				case triF:
+					s.ghost = false
+				}
+			}
+		}
 		if v, badWhen, ok := r.spec.Event(in); ok {
 			r.Events++
 			for _, val := range []bool{true, false} {
@@ -486,7 +564,7 @@ func (r *ghostRun) execBlock(fn *ssa.Function, s *ghostState, from int, resIdx i
 		s.stepNum(in, s.pred)
 		switch x := in.(type) {
 		case *ssa.Phi:
-			if isBoolType(x.Type()) {
+			if isTracked(x.Type()) || (r.spec.Capture != nil && s.hasCaptured(x)) {
 				val := triTop
 				for pi, pb := range b.Preds {
 					if pb == s.pred {
@@ -504,14 +582,14 @@ func (r *ghostRun) execBlock(fn *ssa.Function, s *ghostState, from int, resIdx i
 				for _, o := range forks {
 					n := s.fork()
 					n.ghost = o.Ghost
-					if isBoolType(x.Type()) {
+					if isTracked(x.Type()) {
 						n.env[x] = o.Res
 					}
 					r.execBlock(fn, n, i+1, resIdx, root, depth, outs, work)
 				}
 				return
 			}
-			if isBoolType(x.Type()) {
+			if isTracked(x.Type()) && !(r.spec.Capture != nil && r.spec.Capture(in)) {
 				s.env[x] = triTop
 			}
 		case *ssa.If:
@@ -574,6 +652,14 @@ func (s *ghostState) evalInstr(in ssa.Instruction) tri {
 	case *ssa.ChangeType:
 		return s.eval(x.X)
 	case *ssa.BinOp:
+		if !isBoolType(x.X.Type()) && isTracked(x.X.Type()) && (x.Op == token.EQL || x.Op == token.NEQ) {
+			// err == nil / err != nil: tracked by nil-ness (true = non-nil)
+			a, c := s.eval(x.X), s.eval(x.Y)
+			if a != triTop && c != triTop {
+				return triOf((a == c) == (x.Op == token.EQL))
+			}
+			return triTop
+		}
 		if !isBoolType(x.X.Type()) {
 			if isCountable(x.X.Type()) {
 				if k, ok := x.Y.(*ssa.Const); ok && k.Value != nil && k.Value.Kind() == constant.Int {
@@ -747,4 +833,14 @@ func ghostWhy(p *Prog, r *ghostRun) string {
 		return fmt.Sprintf("after a failed element the function can still return %s at %s (%s)", f.Val, p.Pos(f.Pos), f.Path)
 	}
 	return fmt.Sprintf("reached at %s after a failed element (%s)", p.Pos(f.Pos), f.Path)
+}
+
+// hasCaptured: some edge of the φ carries a captured ghost value (a checkpoint chosen on different paths).
+func (s *ghostState) hasCaptured(x *ssa.Phi) bool {
+	for _, e := range x.Edges {
+		if _, ok := s.env[e]; ok && !isTracked(e.Type()) {
+			return true
+		}
+	}
+	return false
 }
